@@ -546,7 +546,13 @@ func (r *FeatureLocal) RemoveRemoteSubscription(remoteAddress *model.FeatureAddr
 
 // Remove all subscriptions to remote features
 func (r *FeatureLocal) RemoveAllRemoteSubscriptions() {
-	for _, item := range r.subscriptions {
+	// RemoveRemoteSubscription replaces the list under the lock, so walk
+	// over the list as it is now
+	r.mux.Lock()
+	subscriptions := r.subscriptions
+	r.mux.Unlock()
+
+	for _, item := range subscriptions {
 		_, _ = r.RemoveRemoteSubscription(item)
 	}
 }
@@ -626,7 +632,13 @@ func (r *FeatureLocal) RemoveRemoteBinding(remoteAddress *model.FeatureAddressTy
 
 // Remove all subscriptions to remote features
 func (r *FeatureLocal) RemoveAllRemoteBindings() {
-	for _, item := range r.bindings {
+	// RemoveRemoteBinding replaces the list under the lock, so walk over
+	// the list as it is now
+	r.mux.Lock()
+	bindings := r.bindings
+	r.mux.Unlock()
+
+	for _, item := range bindings {
 		_, _ = r.RemoveRemoteBinding(item)
 	}
 }
